@@ -25,6 +25,7 @@ const (
 	c05Err
 	c05Panic
 	c05Short
+	c05PanicRuntime // a run-time fault (write to a nil map) instead of an explicit panic
 )
 
 type c05Call struct {
@@ -40,12 +41,12 @@ type c05Call struct {
 var c05ManyErr = errors.New("many failed")
 
 func c05Run(g int, preCancelOnly bool, full bool) {
-	outcome := nondet.Choice("many", 4)
+	outcome := nondet.Choice("many", 5)
 	maxSize := nondet.Choice("maxSize", 4)
 	if !full {
-		// quick tier: Many ok or panicking, MaxSize unlimited or 2
-		nondet.Assume(outcome == c05OK || outcome == c05Panic)
-		nondet.Assume(maxSize == 0 || maxSize == 2)
+		// quick tier: Many ok or panicking (explicitly or with a run-time fault), MaxSize unlimited, 1 or 2
+		nondet.Assume(outcome == c05OK || outcome == c05Panic || outcome == c05PanicRuntime)
+		nondet.Assume(maxSize <= 2)
 	}
 	shardOn := nondet.Choice("shard", 2) == 1
 	var batches [][]*c05Arg
@@ -67,6 +68,9 @@ func c05Run(g int, preCancelOnly bool, full bool) {
 			return nil, c05ManyErr
 		case c05Panic:
 			panic("many panicked")
+		case c05PanicRuntime:
+			var m map[int]int
+			m[len(args)] = 1
 		}
 		out := make([]interface{}, len(args))
 		for i, a := range args {
